@@ -111,5 +111,26 @@ pub struct FundingP { pub channel_parameters: ChannelParameters }
 //@with
     if htlc.payment_hash == matching_payment_hash {
 //@end
+// which per-commitment point of the counterparty a claim on one of its commitments is built with (get_point_for_commitment_number WHOLE): the latest point for its latest commitment, the previous point for the one before (both can be valid while a revocation is in flight), none for any other number
+pub struct MonP { pub their_cur_per_commitment_points: Option<(u64, Point, Option<Point>)> }
+impl MonP {
+//@extract lightning/src/chain/channelmonitor.rs :: impl ChannelMonitorImpl :: fn get_point_for_commitment_number
+//@rw R5
+    -> Option<PublicKey>
+//@with
+    -> Option<Point>
+//@ret r
+//@requires
+    commitment_number < u64::MAX,
+//@ensures P C07,C06 a-claim-on-a-counterparty-commitment-uses-that-commitments-own-per-commitment-point-the-latest-for-the-latest-number-the-previous-for-the-one-before-and-none-otherwise
+    r == (match self.their_cur_per_commitment_points {
+        None => None::<Point>,
+        Some((n, cur, prev)) => if n == commitment_number { Some(cur) } else if prev is Some && n == commitment_number + 1 { prev } else { None::<Point> } }),
+//@mutant previous_point_used_for_the_commitment_after_the_latest
+    if per_commitment_points.0 == commitment_number + 1 {
+//@with
+    if per_commitment_points.0 + 1 == commitment_number {
+//@end
+}
 }
 fn main() {}
